@@ -127,7 +127,9 @@ RpcReplyFails(p, o, r, ro, ver, dport, uaddr) ==
          ELSE IF c.proc = << 0, 0 >> THEN
              (IF stat = << 0, 0 >> /\ Len(r) = body THEN {} ELSE { "rpc-null-procedure-success" })
          ELSE IF c.prog # PORTMAP THEN
-             (IF stat = << 0, 1 >> /\ Len(r) = body THEN {} ELSE { "rpc-prog-unavail" })
+             (* "other procedures PROC_UNAVAIL and other programs PROG_UNAVAIL": for a procedure of *)
+             (* another program the statement can be read either way                                *)
+             (IF stat \in { << 0, 1 >>, << 0, 3 >> } /\ Len(r) = body THEN {} ELSE { "rpc-prog-unavail" })
          ELSE IF c.proc = << 0, 3 >> THEN
              IF c.vers[2] = 2
              THEN (IF stat = << 0, 0 >> /\ Len(r) = body + 4 /\ RU32(r, body) = P32(dport) THEN {} ELSE { "rpc-getport-contacted-port" })
